@@ -1,16 +1,19 @@
 (* C04 at the level of the codec: the DER octets of a value are a function of its abstract content.
    Two values of a type with the same abstract content ([abs], compared by [aval_eqb]: SET OF contents
    as multisets, a DEFAULT component given explicitly with the default value or left out, a character
-   string given as text or as octets, a REAL given with another mantissa/exponent split) have the same
-   encoding under every encoder of the model that works in the definite-length mode and sorts SET OF
-   (the DER encoder; the statement is generic in the codec, see [Section Codec]).
+   string given as text or as octets, ANY given as VAny or VOcts, a REAL given with another
+   mantissa/exponent split) have the same encoding: [der_abs_function] for DER over the whole universe of
+   types; [cer_abs_function_partial] for CER (SET OF only of primitive definite-length members);
+   [ber_abs_function_partial] for BER (no SET OF: BER does not sort).  One induction, generic in the codec
+   ([Section Codec]: [encw_abs_function]), instantiated three times.
 
    Domain.  [c04_val T v]: the value fits the type at every level (no [ABad] inside), a base-10 REAL is
    normalised as the constructor of univ.Real leaves it (mantissa not divisible by 10), and an untagged
    ANY that is (through untagged CHOICEs) an element of a SET OF holds one complete TLV (the canonical
    order of SET OF compares zero-padded octets and is only well defined on prefix-free members).
-   [c04_ty T]: every DEFAULT value fits its component type.  Nothing else: any tagging, SEQUENCE, SET,
-   SEQUENCE OF, SET OF, CHOICE, ANY, at any depth. *)
+   [c04_ty sof T]: every DEFAULT value fits its component type, and the element type of every SET OF
+   satisfies [sof] (DER: no condition).  Nothing else: any tagging, SEQUENCE, SET, SEQUENCE OF, SET OF,
+   CHOICE, ANY, at any depth.  The witnesses at the end show each condition is needed in the model. *)
 From Coq Require Import Lia Sorting.Permutation.
 From PV Require Import Base.Bytes Model.Tag Model.TableTypes Model.Types Model.Enc Gen.Tables
      Proofs.TagOctets Proofs.ContainerCodecDefs Proofs.ContainerCodecSort Proofs.RoundTripModesBag.
@@ -87,13 +90,14 @@ Fixpoint c04_val (T: ty) (v: val) {struct T} : bool :=
       end
   end.
 
-(* every DEFAULT value fits its component type *)
-Fixpoint c04_ty (T: ty) : bool :=
+(* every DEFAULT value fits its component type; [sof]: the element types for which SET OF is allowed *)
+Fixpoint c04_ty (sof: ty -> bool) (T: ty) : bool :=
   match T with
-  | TImp _ x | TExp _ x | TSeqOf x | TSetOf x => c04_ty x
+  | TImp _ x | TExp _ x | TSeqOf x => c04_ty sof x
+  | TSetOf x => sof x && c04_ty sof x
   | TSeq fs | TSet fs =>
-      forallb (fun f => c04_ty (snd f) && match fst f with Def d => c04_val (snd f) d | _ => true end) fs
-  | TChoice alts => forallb c04_ty alts
+      forallb (fun f => c04_ty sof (snd f) && match fst f with Def d => c04_val (snd f) d | _ => true end) fs
+  | TChoice alts => forallb (c04_ty sof) alts
   | _ => true
   end.
 
@@ -402,8 +406,6 @@ Proof. intros Hx Hy H. unfold set_sort_key. destruct dyn; [apply chosen_outer_ab
 Lemma py_eq_abs' : forall ft x d b, val_py_eq x d = Some b -> c04_val ft x = true -> c04_val ft d = true ->
   aval_eqb (abs ft x) (abs ft d) = b.
 Proof.
-  assert (Hl: forall {X} (eqb: X -> X -> bool), (forall a b, eqb a b = true <-> a = b) -> forall l, list_eqb eqb l l = true).
-  { intros X eqb He l. apply (list_eqb_eq eqb He). reflexivity. }
   induction ft; intros x d b H Hx Hd;
     try (cbn [c04_val abs] in *; apply IHft with (b := b); assumption);
     destruct x; try discriminate Hx; destruct d; try discriminate Hd; cbn [val_py_eq] in H; try discriminate H;
@@ -426,10 +428,10 @@ Qed.
 
 Section Codec.
   Variable c : codec.
-  (* the codec keeps the definite-length mode once it is chosen (BER, DER; not CER) *)
-  Hypothesis Hfix : forall o, o_def o = true -> o_def (fix_opts c o) = true.
-  (* the codec sends SET OF to the sorting encoder (CER, DER; not BER) *)
-  Hypothesis Hset : forall t cd fl, concrete_encoder c (TSetOf t) = Ok (cd, fl) -> cd = EcSetOfCer.
+  (* the element types for which SET OF is allowed *)
+  Variable sof : ty -> bool.
+  (* the options under which the members of such a SET OF are complete definite-length TLVs *)
+  Variable dmode : eopts -> Prop.
 
   Definition encw (T: ty) (o: eopts) (v: val) : res bytes := enc_with c (enc_content c) T o v.
 
@@ -518,43 +520,22 @@ Section Codec.
     cbn [enc_content]. revert i. induction alts as [|a r IH]; intros [|i]; try reflexivity. cbn [nth_error]. apply IH.
   Qed.
 
-  (* ---------- every item the encoder writes in this mode is one complete TLV ---------- *)
-
-  Lemma inner_def o : o_def o = true -> o_def (inner o) = true.
-  Proof. intros H. exact (Hfix o H). Qed.
-
-  Lemma encw_tlv : forall T o v b, o_def o = true -> o_ifne o = false -> any_tlv T v = true ->
-    encw T o v = Ok b -> tlvb b = true.
-  Proof.
-    induction T as [| | | | | | | | n|fs IH|fs IH|t IH|t IH|alts IH| |tg x0 IH|tg x0 IH] using ty_ind'; intros o v b Hd Hi Ha He;
-      destruct (encw_inv _ o v b He) as (cd & fl & ts & content & cns & Hce & Hts & Hcont & Hfr);
-      (destruct ts as [|t0 r];
-       [|apply (frame_tlv t0 r content cns (fix_opts c o) (ef_indef fl) b); [apply Hfix; exact Hd|rewrite fix_opts_ifne; exact Hi|exact Hfr]]);
-      destruct (tagset_nonempty _ _ Hts eq_refl) as [E|[alts' E]]; try discriminate E.
-    - (* CHOICE *)
-      cbn [frame] in Hfr. inversion Hfr; subst content; clear Hfr.
-      destruct v as [| | | | | | | | | |i x|]; try (cbn [enc_content] in Hcont; discriminate Hcont).
-      destruct cd; try (cbn [enc_content] in Hcont; discriminate Hcont).
-      rewrite enc_content_choice in Hcont. rewrite any_tlv_choice in Ha.
-      destruct (nth_error alts i) as [a|] eqn:Ei; [|discriminate Hcont].
-      destruct (encw a (inner o) x) as [p|e] eqn:Ep; cbn [bind] in Hcont; [|discriminate Hcont].
-      inversion Hcont; subst p cns; clear Hcont.
-      rewrite Forall_forall in IH. apply (IH a (nth_error_In _ _ Ei) (inner o) x b); [apply inner_def; exact Hd|reflexivity|exact Ha|exact Ep].
-    - (* ANY *)
-      cbn [frame] in Hfr. inversion Hfr; subst content; clear Hfr.
-      cbn [enc_content] in Hcont. cbn [any_tlv] in Ha.
-      destruct cd; try discriminate Hcont.
-      destruct (octets_of v) as [b0|]; [|discriminate Hcont]. inversion Hcont; subst. exact Ha.
-  Qed.
+  Hypothesis Hdm_inner : forall o, dmode o -> dmode (inner o).
+  Hypothesis Hdm_field : forall o b, dmode o -> dmode (mkOpts (o_def o) (o_chunk o) b).
+  (* the codec sends such a SET OF to the sorting encoder (CER, DER; not BER) *)
+  Hypothesis Hset : forall t, sof t = true -> forall cd fl, concrete_encoder c (TSetOf t) = Ok (cd, fl) -> cd = EcSetOfCer.
+  (* and its members are complete definite-length TLVs *)
+  Hypothesis Htlv : forall t, sof t = true -> forall o x p, dmode o -> o_ifne o = false -> any_tlv t x = true ->
+    encw t o x = Ok p -> tlvb p = true.
 
   (* ---------- the two levels of the induction ---------- *)
 
-  Definition Pw (T: ty) : Prop := forall o v1 v2 b1 b2, o_def o = true -> c04_ty T = true ->
+  Definition Pw (T: ty) : Prop := forall o v1 v2 b1 b2, dmode o -> c04_ty sof T = true ->
     c04_val T v1 = true -> c04_val T v2 = true -> aval_eqb (abs T v1) (abs T v2) = true ->
     encw T o v1 = Ok b1 -> encw T o v2 = Ok b2 -> b1 = b2.
 
   Definition Qc (T: ty) : Prop := forall cd fl o v1 v2 c1 c2, concrete_encoder c T = Ok (cd, fl) ->
-    o_def o = true -> o_ifne o = false -> c04_ty T = true ->
+    dmode o -> o_ifne o = false -> c04_ty sof T = true ->
     c04_val T v1 = true -> c04_val T v2 = true -> aval_eqb (abs T v1) (abs T v2) = true ->
     enc_content c T cd fl o v1 = Ok c1 -> enc_content c T cd fl o v2 = Ok c2 -> c1 = c2.
 
@@ -564,7 +545,7 @@ Section Codec.
     destruct (encw_inv _ _ _ _ E1) as (cd & fl & ts & content & cns & Hce & Hts & Hcont & Hfr).
     destruct (encw_inv _ _ _ _ E2) as (cd' & fl' & ts' & content' & cns' & Hce' & Hts' & Hcont' & Hfr').
     rewrite Hce in Hce'. inversion Hce'; subst cd' fl'. rewrite Hts in Hts'. inversion Hts'; subst ts'.
-    pose proof (HQ cd fl (inner o) v1 v2 _ _ Hce (inner_def o Hd) eq_refl Hty H1 H2 Habs Hcont Hcont') as E.
+    pose proof (HQ cd fl (inner o) v1 v2 _ _ Hce (Hdm_inner o Hd) eq_refl Hty H1 H2 Habs Hcont Hcont') as E.
     inversion E; subst content' cns'. rewrite Hfr in Hfr'. inversion Hfr'. reflexivity.
   Qed.
 
@@ -609,3 +590,502 @@ Section Codec.
           apply bytes_eqb_eq in H; cbn [octets_of]; rewrite H; reflexivity. }
       cbn [enc_content]. rewrite Ho. reflexivity.
   Qed.
+
+  (* ---------- SEQUENCE OF / SET OF ---------- *)
+
+  Lemma Forall2_map_inv {A B C D} (P: C -> D -> Prop) (f: A -> C) (g: B -> D) : forall xs ys,
+    Forall2 P (map f xs) (map g ys) -> Forall2 (fun x y => P (f x) (g y)) xs ys.
+  Proof.
+    induction xs as [|x xs IH]; intros [|y ys] H; cbn [map] in H; inversion H; subst; constructor; [assumption|].
+    apply IH. assumption.
+  Qed.
+
+  Lemma elems_pointwise t o : Pw t -> c04_ty sof t = true -> dmode o -> forall xs ys,
+    Forall2 (fun x y => aval_eqb (abs t x) (abs t y) = true) xs ys ->
+    Forall (fun x => c04_val t x = true) xs -> Forall (fun x => c04_val t x = true) ys ->
+    forall ps qs, Forall2 (fun x p => encw t o x = Ok p) xs ps -> Forall2 (fun x p => encw t o x = Ok p) ys qs -> ps = qs.
+  Proof.
+    intros HP Hty Hd xs ys HF. induction HF as [|x y xs ys Hxy HF IH]; intros Hx Hy ps qs Ep Eq.
+    - inversion Ep; inversion Eq; reflexivity.
+    - inversion Ep as [|? p ? ps' Hp Hps]; subst. inversion Eq as [|? q ? qs' Hq Hqs]; subst.
+      inversion Hx; subst. inversion Hy; subst.
+      f_equal; [exact (HP o x y p q Hd Hty ltac:(assumption) ltac:(assumption) Hxy Hp Hq)|].
+      apply IH; assumption.
+  Qed.
+
+  Lemma Qc_seqof t : Pw t -> Qc (TSeqOf t).
+  Proof.
+    intros HP cd fl o v1 v2 c1 c2 Hce Hd Hi Hty H1 H2 Habs E1 E2.
+    cbn [c04_ty] in Hty.
+    destruct v1 as [| | | | | | | | |xs| |]; try discriminate H1. destruct v2 as [| | | | | | | | |ys| |]; try discriminate H2.
+    cbn [c04_val] in H1, H2. rewrite forallb_forall in H1, H2.
+    cbn [abs aval_eqb] in Habs. apply list_eqb_F2 in Habs. apply Forall2_map_inv in Habs.
+    rewrite (enc_content_listof (TSeqOf t) t cd fl o xs (or_introl eq_refl)) in E1.
+    rewrite (enc_content_listof (TSeqOf t) t cd fl o ys (or_introl eq_refl)) in E2.
+    destruct (enc_elems t o xs) as [ps|e] eqn:Ep; cbn [bind] in E1; [|discriminate E1].
+    destruct (enc_elems t o ys) as [qs|e] eqn:Eq; cbn [bind] in E2; [|discriminate E2].
+    apply enc_elems_F2 in Ep, Eq.
+    assert (E: ps = qs).
+    { apply (elems_pointwise t o HP Hty Hd xs ys Habs); try assumption; apply Forall_forall; assumption. }
+    subst qs. rewrite E1 in E2. inversion E2. reflexivity.
+  Qed.
+
+  Lemma Qc_setof t : Pw t -> Qc (TSetOf t).
+  Proof.
+    intros HP cd fl o v1 v2 c1 c2 Hce Hd Hi Hty H1 H2 Habs E1 E2.
+    cbn [c04_ty] in Hty. apply Bool.andb_true_iff in Hty. destruct Hty as [S Hty]. pose proof (Hset t S cd fl Hce) as ->.
+    destruct v1 as [| | | | | | | | |xs| |]; try discriminate H1. destruct v2 as [| | | | | | | | |ys| |]; try discriminate H2.
+    cbn [c04_val] in H1, H2. rewrite forallb_forall in H1, H2.
+    cbn [abs aval_eqb] in Habs.
+    destruct (bag_eqb_sound aval_eqb _ _ Habs) as (l2' & Hperm & HF).
+    destruct (Permutation_map_inv _ _ Hperm) as (ys' & -> & Hpy).
+    apply Forall2_map_inv in HF.
+    rewrite (enc_content_listof (TSetOf t) t EcSetOfCer fl o xs (or_intror eq_refl)) in E1.
+    rewrite (enc_content_listof (TSetOf t) t EcSetOfCer fl o ys (or_intror eq_refl)) in E2.
+    destruct (enc_elems t o xs) as [ps|e] eqn:Ep; cbn [bind] in E1; [|discriminate E1].
+    destruct (enc_elems t o ys) as [qs|e] eqn:Eq; cbn [bind] in E2; [|discriminate E2].
+    apply enc_elems_F2 in Ep, Eq.
+    destruct (Permutation_Forall2 Hpy Eq) as (qs' & Hpq & Eq').
+    assert (Hxs: Forall (fun x => c04_val t x = true) xs).
+    { apply Forall_forall. intros x Hx. specialize (H1 x Hx). apply Bool.andb_true_iff in H1. exact (proj1 H1). }
+    assert (Hys: Forall (fun x => c04_val t x = true) ys').
+    { apply Forall_forall. intros x Hx. assert (Hin: In x ys) by (eapply Permutation_in; [apply Permutation_sym; exact Hpy|exact Hx]).
+      specialize (H2 x Hin). apply Bool.andb_true_iff in H2. exact (proj1 H2). }
+    assert (E: ps = qs') by (apply (elems_pointwise t o HP Hty Hd xs ys' HF Hxs Hys); assumption).
+    subst qs'.
+    assert (Hps: Forall (fun p => tlvb p = true) ps).
+    { clear - Ep H1 Hd Hi Htlv S. induction Ep as [|x p xs ps Hp Hps' IH]; constructor.
+      - assert (Hx: In x (x :: xs)) by (left; reflexivity). specialize (H1 x Hx). apply Bool.andb_true_iff in H1.
+        exact (Htlv t S o x p Hd Hi (proj2 H1) Hp).
+      - apply IH. intros y Hy. apply H1. right. exact Hy. }
+    rewrite (sort_setof_perm ps qs (Permutation_sym Hpq) (tlv_pad_distinct ps Hps)) in E1.
+    inversion E1; inversion E2; subst. reflexivity.
+  Qed.
+
+  (* ---------- SEQUENCE / SET ---------- *)
+
+  Definition emitf (cd: enc_codec) (omit: bool) (o: eopts) (p: presence) (ft: ty) (k: res (list (tagset * bytes))) (x: val)
+    : res (list (tagset * bytes)) :=
+    do b <- encw ft (if omit then mkOpts (o_def o) (o_chunk o) (match p with Opt => true | _ => false end) else o) x;
+    do rest <- k;
+    Ok ((set_sort_key (match cd with EcSetDer => true | _ => false end) ft x, b) :: rest).
+
+  Definition field_step (cd: enc_codec) (omit: bool) (o: eopts) (p: presence) (ft: ty) (h: option val)
+             (k: res (list (tagset * bytes))) : res (list (tagset * bytes)) :=
+    match p, h with
+    | Opt, None => k
+    | Def d, None => k
+    | Def d, Some x => match val_py_eq x d with
+                       | Some true => k
+                       | Some false => emitf cd omit o p ft k x
+                       | None => Err EUnmodelled end
+    | Req, None => if all_optional_container ft then emitf cd omit o p ft k (VRec []) else Err EMalformed
+    | _, Some x => emitf cd omit o p ft k x
+    end.
+
+  Lemma enc_fields_cons cd omit o p ft fs vs :
+    enc_fields cd omit o ((p, ft) :: fs) vs = field_step cd omit o p ft (hdo vs) (enc_fields cd omit o fs (tl vs)).
+  Proof. destruct vs as [|ov vs]; destruct p; try reflexivity; cbn [hdo]; destruct ov; reflexivity. Qed.
+
+  Lemma okf_cons p ft fs vs :
+    okf ((p, ft) :: fs) vs = (match hdo vs with Some x => c04_val ft x | None => true end) && okf fs (tl vs).
+  Proof. reflexivity. Qed.
+
+  Lemma emitf_eq cd (omit: bool) o (p: presence) ft k1 k2 x y p1 p2 :
+    (forall b1 b2, encw ft (if omit then mkOpts (o_def o) (o_chunk o) (match p with Opt => true | _ => false end) else o) x = Ok b1 ->
+                   encw ft (if omit then mkOpts (o_def o) (o_chunk o) (match p with Opt => true | _ => false end) else o) y = Ok b2 -> b1 = b2) ->
+    (forall dyn, set_sort_key dyn ft x = set_sort_key dyn ft y) ->
+    (forall r1 r2, k1 = Ok r1 -> k2 = Ok r2 -> r1 = r2) ->
+    emitf cd omit o p ft k1 x = Ok p1 -> emitf cd omit o p ft k2 y = Ok p2 -> p1 = p2.
+  Proof.
+    intros Hb Hk Hr E1 E2. unfold emitf in E1, E2.
+    destruct (encw ft _ x) as [b1|e] eqn:Ex; cbn [bind] in E1; [|discriminate E1].
+    destruct (encw ft _ y) as [b2|e] eqn:Ey; cbn [bind] in E2; [|discriminate E2].
+    destruct k1 as [r1|e]; cbn [bind] in E1; [|discriminate E1].
+    destruct k2 as [r2|e]; cbn [bind] in E2; [|discriminate E2].
+    rewrite (Hb b1 b2 eq_refl eq_refl), (Hr r1 r2 eq_refl eq_refl), (Hk _) in E1. rewrite E1 in E2. inversion E2. reflexivity.
+  Qed.
+
+  Definition absh (p: presence) (ft: ty) (h: option val) : option aval :=
+    match h, p with Some x, _ => Some (abs ft x) | None, Def d => Some (abs ft d) | None, _ => None end.
+  Definition okh (ft: ty) (h: option val) : bool := match h with Some x => c04_val ft x | None => true end.
+
+  Lemma field_step_eq cd omit o p ft h1 h2 k1 k2 p1 p2 :
+    Pw ft -> c04_ty sof ft = true -> (match p with Def d => c04_val ft d | _ => true end) = true -> dmode o ->
+    okh ft h1 = true -> okh ft h2 = true -> opt_eqb aval_eqb (absh p ft h1) (absh p ft h2) = true ->
+    (forall r1 r2, k1 = Ok r1 -> k2 = Ok r2 -> r1 = r2) ->
+    field_step cd omit o p ft h1 k1 = Ok p1 -> field_step cd omit o p ft h2 k2 = Ok p2 -> p1 = p2.
+  Proof.
+    intros HP Hty Hdef Hd Hk1 Hk2 Habs Hr E1 E2.
+    assert (Hemit: forall x y, c04_val ft x = true -> c04_val ft y = true -> aval_eqb (abs ft x) (abs ft y) = true ->
+              emitf cd omit o p ft k1 x = Ok p1 -> emitf cd omit o p ft k2 y = Ok p2 -> p1 = p2).
+    { intros x y Hx Hy Hxy. apply emitf_eq; [|intros dyn; apply sort_key_abs; assumption|exact Hr].
+      intros b1 b2. apply HP; try assumption. destruct omit; [apply Hdm_field; exact Hd|exact Hd]. }
+    destruct p as [| |d]; destruct h1 as [x|]; destruct h2 as [y|]; cbn [absh opt_eqb okh] in *; try discriminate Habs;
+      cbn [field_step] in E1, E2.
+    - exact (Hemit x y Hk1 Hk2 Habs E1 E2).
+    - destruct (all_optional_container ft); [|discriminate E1].
+      apply (emitf_eq cd omit o Req ft k1 k2 (VRec []) (VRec []) p1 p2); try assumption; [|reflexivity].
+      intros b1 b2 A B. rewrite A in B. inversion B. reflexivity.
+    - exact (Hemit x y Hk1 Hk2 Habs E1 E2).
+    - exact (Hr p1 p2 E1 E2).
+    - (* DEFAULT: both present *)
+      destruct (val_py_eq x d) as [[|]|] eqn:Ex; [| |discriminate E1];
+        (destruct (val_py_eq y d) as [[|]|] eqn:Ey; [| |discriminate E2]).
+      + exact (Hr p1 p2 E1 E2).
+      + exfalso. pose proof (py_eq_abs' ft x d true Ex Hk1 Hdef) as A. pose proof (py_eq_abs' ft y d false Ey Hk2 Hdef) as B.
+        rewrite (aval_eqb_trans _ _ _ (aval_eqb_sym _ _ Habs) A) in B. discriminate B.
+      + exfalso. pose proof (py_eq_abs' ft x d false Ex Hk1 Hdef) as A. pose proof (py_eq_abs' ft y d true Ey Hk2 Hdef) as B.
+        rewrite (aval_eqb_trans _ _ _ Habs B) in A. discriminate A.
+      + exact (Hemit x y Hk1 Hk2 Habs E1 E2).
+    - (* DEFAULT: given / left out *)
+      destruct (val_py_eq x d) as [[|]|] eqn:Ex; [| |discriminate E1].
+      + exact (Hr p1 p2 E1 E2).
+      + exfalso. pose proof (py_eq_abs' ft x d false Ex Hk1 Hdef) as A. rewrite Habs in A. discriminate A.
+    - (* DEFAULT: left out / given *)
+      destruct (val_py_eq y d) as [[|]|] eqn:Ey; [| |discriminate E2].
+      + exact (Hr p1 p2 E1 E2).
+      + exfalso. pose proof (py_eq_abs' ft y d false Ey Hk2 Hdef) as B. rewrite (aval_eqb_sym _ _ Habs) in B. discriminate B.
+    - exact (Hr p1 p2 E1 E2).
+  Qed.
+
+  Lemma fields_eq cd omit o : dmode o -> forall fs, Forall (fun f => Pw (snd f)) fs ->
+    forallb (fun f => c04_ty sof (snd f) && match fst f with Def d => c04_val (snd f) d | _ => true end) fs = true ->
+    forall vs1 vs2 p1 p2, okf fs vs1 = true -> okf fs vs2 = true ->
+    list_eqb (opt_eqb aval_eqb) (absf fs vs1) (absf fs vs2) = true ->
+    enc_fields cd omit o fs vs1 = Ok p1 -> enc_fields cd omit o fs vs2 = Ok p2 -> p1 = p2.
+  Proof.
+    intros Hd fs HF. induction HF as [|[p ft] fs HPf HF IH]; intros Hty vs1 vs2 p1 p2 H1 H2 Habs E1 E2.
+    - cbn [enc_fields] in E1, E2. inversion E1; inversion E2; reflexivity.
+    - cbn [forallb fst snd] in Hty. apply Bool.andb_true_iff in Hty. destruct Hty as [Hty0 Hty].
+      apply Bool.andb_true_iff in Hty0. destruct Hty0 as [Htyf Hdef].
+      rewrite okf_cons in H1, H2. apply Bool.andb_true_iff in H1, H2. destruct H1 as [H1a H1b]. destruct H2 as [H2a H2b].
+      rewrite !absf_cons in Habs. cbn [list_eqb] in Habs. apply Bool.andb_true_iff in Habs. destruct Habs as [Ha Hb].
+      rewrite enc_fields_cons in E1, E2. cbn [snd] in HPf.
+      apply (field_step_eq cd omit o p ft (hdo vs1) (hdo vs2) (enc_fields cd omit o fs (tl vs1)) (enc_fields cd omit o fs (tl vs2)) p1 p2
+               HPf Htyf Hdef Hd H1a H2a Ha); [|exact E1|exact E2].
+      intros r1 r2 R1 R2. exact (IH Hty (tl vs1) (tl vs2) r1 r2 H1b H2b Hb R1 R2).
+  Qed.
+
+  Lemma Qc_rec T fs : T = TSeq fs \/ T = TSet fs -> Forall (fun f => Pw (snd f)) fs -> Qc T.
+  Proof.
+    intros HT HF cd fl o v1 v2 c1 c2 Hce Hd Hi Hty H1 H2 Habs E1 E2.
+    assert (Hty': forallb (fun f => c04_ty sof (snd f) && match fst f with Def d => c04_val (snd f) d | _ => true end) fs = true).
+    { destruct HT as [-> | ->]; exact Hty. }
+    destruct v1 as [| | | | | | | |vs1| | |]; try (destruct HT as [-> | ->]; discriminate H1).
+    destruct v2 as [| | | | | | | |vs2| | |]; try (destruct HT as [-> | ->]; discriminate H2).
+    rewrite (c04_val_rec T fs vs1 HT) in H1. rewrite (c04_val_rec T fs vs2 HT) in H2.
+    rewrite (abs_rec T fs vs1 HT), (abs_rec T fs vs2 HT) in Habs. cbn [aval_eqb] in Habs.
+    rewrite (enc_content_rec T fs cd fl o vs1 HT) in E1. rewrite (enc_content_rec T fs cd fl o vs2 HT) in E2.
+    destruct (enc_fields cd _ o fs vs1) as [q1|e] eqn:F1; cbn [bind] in E1; [|discriminate E1].
+    destruct (enc_fields cd _ o fs vs2) as [q2|e] eqn:F2; cbn [bind] in E2; [|discriminate E2].
+    rewrite (fields_eq cd _ o Hd fs HF Hty' vs1 vs2 q1 q2 H1 H2 Habs F1 F2) in E1. rewrite E1 in E2. inversion E2. reflexivity.
+  Qed.
+
+  (* ---------- CHOICE ---------- *)
+
+  Lemma Qc_choice alts : Forall Pw alts -> Qc (TChoice alts).
+  Proof.
+    intros HF cd fl o v1 v2 c1 c2 Hce Hd Hi Hty H1 H2 Habs E1 E2.
+    destruct v1 as [| | | | | | | | | |i x|]; try discriminate H1. destruct v2 as [| | | | | | | | | |j y|]; try discriminate H2.
+    rewrite c04_val_choice in H1, H2. rewrite !abs_choice' in Habs.
+    destruct (nth_error alts i) as [a|] eqn:Ei; [|discriminate H1].
+    destruct (nth_error alts j) as [a'|] eqn:Ej; [|discriminate H2].
+    cbn [aval_eqb] in Habs. apply Bool.andb_true_iff in Habs. destruct Habs as [Hij Habs]. apply Nat.eqb_eq in Hij. subst j.
+    rewrite Ei in Ej. inversion Ej; subst a'.
+    destruct cd; try (cbn [enc_content] in E1; discriminate E1).
+    rewrite enc_content_choice, Ei in E1, E2.
+    destruct (encw a o x) as [p1|e] eqn:Ep1; cbn [bind] in E1; [|discriminate E1].
+    destruct (encw a o y) as [p2|e] eqn:Ep2; cbn [bind] in E2; [|discriminate E2].
+    rewrite Forall_forall in HF. pose proof (HF a (nth_error_In _ _ Ei)) as HPa.
+    cbn [c04_ty] in Hty. rewrite forallb_forall in Hty.
+    rewrite (HPa o x y p1 p2 Hd (Hty a (nth_error_In _ _ Ei)) H1 H2 Habs Ep1 Ep2) in E1. rewrite E1 in E2. inversion E2. reflexivity.
+  Qed.
+
+  (* ---------- the induction ---------- *)
+
+  Lemma Qc_leaf T : leaf_ty T -> Qc T.
+  Proof.
+    intros HT cd fl o v1 v2 c1 c2 Hce Hd Hi Hty H1 H2 Habs E1 E2.
+    rewrite (leaf_content T cd fl o v1 v2 HT H1 H2 Habs) in E1. rewrite E1 in E2. inversion E2. reflexivity.
+  Qed.
+
+  Theorem Qc_all : forall T, Qc T.
+  Proof.
+    induction T as [| | | | | | | | n|fs IH|fs IH|t IH|t IH|alts IH| |tg x IH|tg x IH] using ty_ind';
+      try (apply Qc_leaf; exact I).
+    - apply (Qc_rec (TSeq fs) fs (or_introl eq_refl)). apply Forall_forall. rewrite Forall_forall in IH.
+      intros f Hf. apply Pw_of_Qc. exact (IH f Hf).
+    - apply (Qc_rec (TSet fs) fs (or_intror eq_refl)). apply Forall_forall. rewrite Forall_forall in IH.
+      intros f Hf. apply Pw_of_Qc. exact (IH f Hf).
+    - apply Qc_seqof. apply Pw_of_Qc. exact IH.
+    - apply Qc_setof. apply Pw_of_Qc. exact IH.
+    - apply Qc_choice. apply Forall_forall. rewrite Forall_forall in IH. intros a Ha. apply Pw_of_Qc. exact (IH a Ha).
+    - intros cd fl o v1 v2 c1 c2 Hce. rewrite concrete_encoder_imp in Hce. exact (IH cd fl o v1 v2 c1 c2 Hce).
+    - intros cd fl o v1 v2 c1 c2 Hce. rewrite concrete_encoder_exp in Hce. exact (IH cd fl o v1 v2 c1 c2 Hce).
+  Qed.
+
+  Theorem encw_abs_function : forall T, Pw T.
+  Proof. intros T. apply Pw_of_Qc. apply Qc_all. Qed.
+
+End Codec.
+
+(* ---------- in the definite-length mode every item the encoder writes is one complete TLV ---------- *)
+
+Section Tlv.
+  Variable c : codec.
+  (* the codec keeps the definite-length mode once it is chosen (BER, DER; not CER) *)
+  Hypothesis Hfix : forall o, o_def o = true -> o_def (fix_opts c o) = true.
+
+  Lemma encw_tlv : forall T o v b, o_def o = true -> o_ifne o = false -> any_tlv T v = true ->
+    encw c T o v = Ok b -> tlvb b = true.
+  Proof.
+    induction T as [| | | | | | | | n|fs IH|fs IH|t IH|t IH|alts IH| |tg x0 IH|tg x0 IH] using ty_ind'; intros o v b Hd Hi Ha He;
+      destruct (encw_inv c _ o v b He) as (cd & fl & ts & content & cns & Hce & Hts & Hcont & Hfr);
+      (destruct ts as [|t0 r];
+       [|apply (frame_tlv t0 r content cns (fix_opts c o) (ef_indef fl) b); [apply Hfix; exact Hd|rewrite fix_opts_ifne; exact Hi|exact Hfr]]);
+      destruct (tagset_nonempty _ _ Hts eq_refl) as [E|[alts' E]]; try discriminate E.
+    - (* CHOICE *)
+      cbn [frame] in Hfr. inversion Hfr; subst content; clear Hfr.
+      destruct v as [| | | | | | | | | |i x|]; try (cbn [enc_content] in Hcont; discriminate Hcont).
+      destruct cd; try (cbn [enc_content] in Hcont; discriminate Hcont).
+      rewrite enc_content_choice in Hcont. rewrite any_tlv_choice in Ha.
+      destruct (nth_error alts i) as [a|] eqn:Ei; [|discriminate Hcont].
+      destruct (encw c a (inner c o) x) as [p|e] eqn:Ep; cbn [bind] in Hcont; [|discriminate Hcont].
+      inversion Hcont; subst p cns; clear Hcont.
+      rewrite Forall_forall in IH. apply (IH a (nth_error_In _ _ Ei) (inner c o) x b); [exact (Hfix o Hd)|reflexivity|exact Ha|exact Ep].
+    - (* ANY *)
+      cbn [frame] in Hfr. inversion Hfr; subst content; clear Hfr.
+      cbn [enc_content] in Hcont. cbn [any_tlv] in Ha.
+      destruct cd; try discriminate Hcont.
+      destruct (octets_of v) as [b0|]; [|discriminate Hcont]. inversion Hcont; subst. exact Ha.
+  Qed.
+
+End Tlv.
+
+(* ---------- the codecs ---------- *)
+
+Definition all_ty (T: ty) : bool := true.
+Definition no_ty (T: ty) : bool := false.
+
+Lemma der_fix : forall o, o_def o = true -> o_def (fix_opts DER o) = true.
+Proof. intros o _. reflexivity. Qed.
+
+Lemma der_setof : forall t, all_ty t = true -> forall cd fl, concrete_encoder DER (TSetOf t) = Ok (cd, fl) -> cd = EcSetOfCer.
+Proof. intros t _ cd fl H. vm_compute in H. inversion H. reflexivity. Qed.
+
+Lemma der_opts T d k v : encode DER d k T v = encw DER T (mkOpts true 0 false) v.
+Proof. reflexivity. Qed.
+
+(* DER (whatever defMode / maxChunkSize the caller passes: the DER encoder fixes them): the octets are a
+   function of the abstract content, over the whole universe of types *)
+Theorem der_abs_function : forall T v1 v2 b1 b2 d k,
+  c04_ty all_ty T = true -> c04_val T v1 = true -> c04_val T v2 = true ->
+  aval_eqb (abs T v1) (abs T v2) = true ->
+  encode DER d k T v1 = Ok b1 -> encode DER d k T v2 = Ok b2 -> b1 = b2.
+Proof.
+  intros T v1 v2 b1 b2 d k Hty H1 H2 Habs E1 E2. rewrite der_opts in E1, E2.
+  apply (encw_abs_function DER all_ty (fun o => o_def o = true)
+           (fun o Ho => der_fix o Ho) (fun o b Ho => Ho) der_setof
+           (fun t _ o x p Hd Hi Ha He => encw_tlv DER der_fix t o x p Hd Hi Ha He)
+           T (mkOpts true 0 false) v1 v2 b1 b2); try assumption. reflexivity.
+Qed.
+
+(* the statement as asked for *)
+Corollary der_abs_function_def : forall T v1 v2 b1 b2,
+  c04_ty all_ty T = true -> c04_val T v1 = true -> c04_val T v2 = true ->
+  aval_eqb (abs T v1) (abs T v2) = true ->
+  encode DER true 0 T v1 = Ok b1 -> encode DER true 0 T v2 = Ok b2 -> b1 = b2.
+Proof. intros T v1 v2 b1 b2. apply der_abs_function. Qed.
+
+(* CER: SET OF is covered where the members are primitive encodings under one tag (BOOLEAN, INTEGER, ENUMERATED,
+   NULL, OBJECT IDENTIFIER, REAL, IMPLICITly tagged or not): these keep a definite length under CER *)
+Fixpoint cer_prim (T: ty) : bool :=
+  match T with
+  | TImp _ x => cer_prim x
+  | TBool | TInt | TEnum | TNull | TOid | TReal => true
+  | _ => false
+  end.
+
+Lemma cer_prim_tagset : forall T, cer_prim T = true -> forall ts, tagset_of T = Ok ts -> exists t0, ts = [t0].
+Proof.
+  induction T; intros H ts Hts; try discriminate H; cbn [tagset_of] in Hts; try (inversion Hts; eexists; reflexivity).
+  cbn [cer_prim] in H. destruct (tagset_of T) as [ts0|e] eqn:E; cbn [bind] in Hts; [|discriminate Hts].
+  destruct (IHT H ts0 eq_refl) as (t0 & ->). inversion Hts. eexists. reflexivity.
+Qed.
+
+Lemma cer_prim_content : forall T, cer_prim T = true -> forall c cd fl o v content cns,
+  enc_content c T cd fl o v = Ok (content, cns) -> cns = false.
+Proof.
+  induction T; intros H c cd fl o v content cns E; try discriminate H; cbn [enc_content] in E.
+  - destruct v; try discriminate E; destruct cd; try discriminate E; inversion E; reflexivity.
+  - destruct v; try discriminate E; destruct cd; try discriminate E; inversion E; reflexivity.
+  - destruct v; try discriminate E; destruct cd; try discriminate E; inversion E; reflexivity.
+  - destruct v; try discriminate E; destruct cd; try discriminate E; inversion E; reflexivity.
+  - destruct v; try discriminate E; destruct cd; try discriminate E;
+      destruct (enc_oid arcs); cbn [bind] in E; try discriminate E; inversion E; reflexivity.
+  - destruct v; try discriminate E; destruct cd; try discriminate E;
+      destruct (enc_real r); cbn [bind] in E; try discriminate E; inversion E; reflexivity.
+  - exact (IHT H c cd fl o v content cns E).
+Qed.
+
+Lemma cer_prim_tlv t : cer_prim t = true -> forall c o x p, o_ifne o = false -> encw c t o x = Ok p -> tlvb p = true.
+Proof.
+  intros H c o x p Hi He.
+  destruct (encw_inv c _ o x p He) as (cd & fl & ts & content & cns & Hce & Hts & Hcont & Hfr).
+  destruct (cer_prim_tagset t H ts Hts) as (t0 & ->). pose proof (cer_prim_content t H _ _ _ _ _ _ _ Hcont) as ->.
+  cbn [frame andb] in Hfr. rewrite Bool.andb_false_r in Hfr.
+  destruct (frame_one t0 false true (ef_indef fl) content) as [s0|e] eqn:E0; cbn [bind frame_outer] in Hfr; [|discriminate Hfr].
+  inversion Hfr; subst p. exact (frame_one_tlv _ _ _ _ _ E0).
+Qed.
+
+Lemma cer_setof : forall t, cer_prim t = true -> forall cd fl, concrete_encoder CER (TSetOf t) = Ok (cd, fl) -> cd = EcSetOfCer.
+Proof. intros t _ cd fl H. vm_compute in H. inversion H. reflexivity. Qed.
+
+(* CER, any defMode / maxChunkSize.  [_partial]: SET OF of constructed (indefinite-length) or string members is not
+   covered - such members would have to be shown prefix-free under zero padding, which fails e.g. for an ANY holding
+   arbitrary octets anywhere inside a member (see [cer_setof_any_witness]) *)
+Theorem cer_abs_function_partial : forall T v1 v2 b1 b2 d k,
+  c04_ty cer_prim T = true -> c04_val T v1 = true -> c04_val T v2 = true ->
+  aval_eqb (abs T v1) (abs T v2) = true ->
+  encode CER d k T v1 = Ok b1 -> encode CER d k T v2 = Ok b2 -> b1 = b2.
+Proof.
+  intros T v1 v2 b1 b2 d k Hty H1 H2 Habs E1 E2.
+  apply (encw_abs_function CER cer_prim (fun _ => True)
+           (fun o _ => I) (fun o b _ => I) cer_setof
+           (fun t Ht o x p _ Hi _ He => cer_prim_tlv t Ht CER o x p Hi He)
+           T (mkOpts d k false) v1 v2 b1 b2); try assumption. exact I.
+Qed.
+
+(* BER, any defMode / maxChunkSize: the types without SET OF (BER does not sort) *)
+Theorem ber_abs_function_partial : forall T v1 v2 b1 b2 d k,
+  c04_ty no_ty T = true -> c04_val T v1 = true -> c04_val T v2 = true ->
+  aval_eqb (abs T v1) (abs T v2) = true ->
+  encode BER d k T v1 = Ok b1 -> encode BER d k T v2 = Ok b2 -> b1 = b2.
+Proof.
+  intros T v1 v2 b1 b2 d k Hty H1 H2 Habs E1 E2.
+  apply (encw_abs_function BER no_ty (fun _ => True)
+           (fun o _ => I) (fun o b _ => I)
+           (fun t (Ht: no_ty t = true) => ltac:(discriminate Ht))
+           (fun t (Ht: no_ty t = true) => ltac:(discriminate Ht))
+           T (mkOpts d k false) v1 v2 b1 b2); try assumption. exact I.
+Qed.
+
+Print Assumptions der_abs_function.
+Print Assumptions der_abs_function_def.
+Print Assumptions cer_abs_function_partial.
+Print Assumptions ber_abs_function_partial.
+
+(* ---------- non-vacuity: the hypotheses hold of distinct representations, and the octets agree ---------- *)
+
+Definition c04_case (T: ty) (v1 v2: val) (b: bytes) : Prop :=
+  c04_ty all_ty T = true /\ c04_val T v1 = true /\ c04_val T v2 = true /\ v1 <> v2 /\
+  aval_eqb (abs T v1) (abs T v2) = true /\ encode DER true 0 T v1 = Ok b /\ encode DER true 0 T v2 = Ok b.
+
+Ltac c04_case_tac := unfold c04_case; repeat split; try (vm_compute; reflexivity); intros H; discriminate H.
+
+(* SET OF INTEGER {3, 1, 2} and {1, 2, 3} *)
+Example der_abs_function_setof :
+  c04_case (TSetOf TInt) (VList [VInt 3; VInt 1; VInt 2]) (VList [VInt 1; VInt 2; VInt 3]) [49; 9; 2; 1; 1; 2; 1; 2; 2; 1; 3].
+Proof. c04_case_tac. Qed.
+
+Definition c04_ctx0 : tag := mkTag Ctx false 0.
+Definition c04_seq : ty :=
+  TSeq [(Req, TInt); (Def (VInt 5), TImp c04_ctx0 TInt); (Def (VChars [[104]; [105]]), TStr 12)].
+
+(* DEFAULT components given explicitly with the default value (a string default given as octets where the
+   schema has text), or left out (here: the slots are not even there) *)
+Example der_abs_function_default :
+  c04_case c04_seq (VRec [Some (VInt 1); Some (VInt 5); Some (VOcts [104; 105])]) (VRec [Some (VInt 1)]) [48; 3; 2; 1; 1].
+Proof. c04_case_tac. Qed.
+
+(* UTF8String given as text (two characters, one of two octets) or as octets *)
+Example der_abs_function_text :
+  c04_case (TStr 12) (VChars [[104]; [195; 169]]) (VOcts [104; 195; 169]) [12; 3; 104; 195; 169].
+Proof. c04_case_tac. Qed.
+
+(* REAL -12 = (-12, 2, 0) = (-3, 2, 2); zero in base 2 and in base 10 *)
+Example der_abs_function_real :
+  c04_case TReal (VReal (RBin (-12) 0)) (VReal (RBin (-3) 2)) [9; 3; 192; 2; 3] /\
+  c04_case TReal (VReal (RBin 0 7)) (VReal (RDec 0 2)) [9; 0].
+Proof. split; c04_case_tac. Qed.
+
+(* everything at once: SET OF CHOICE { [0] EXPLICIT SEQUENCE {.. DEFAULT ..}, SET { CHOICE, [0] REAL OPTIONAL, ANY }, ANY },
+   the members in another order and each in another representation *)
+Definition c04_big : ty :=
+  TSetOf (TChoice [TExp c04_ctx0 c04_seq;
+                   TSet [(Req, TChoice [TInt; TBool]); (Opt, TImp c04_ctx0 TReal); (Req, TAny)];
+                   TAny]).
+Definition c04_big_v1 : val :=
+  VList [VChoice 0 (VRec [Some (VInt 1); Some (VInt 5); Some (VOcts [104; 105])]);
+         VChoice 1 (VRec [Some (VChoice 1 (VBool true)); Some (VReal (RBin 12 0)); Some (VAny [1])]);
+         VChoice 2 (VAny [5; 0]);
+         VChoice 0 (VRec [Some (VInt 1)])].
+Definition c04_big_v2 : val :=
+  VList [VChoice 2 (VOcts [5; 0]);
+         VChoice 0 (VRec [Some (VInt 1); None; Some (VChars [[104]; [105]])]);
+         VChoice 1 (VRec [Some (VChoice 1 (VBool true)); Some (VReal (RBin 3 2)); Some (VOcts [1]); None]);
+         VChoice 0 (VRec [Some (VInt 1)])].
+Example der_abs_function_nonvacuous :
+  c04_case c04_big c04_big_v1 c04_big_v2
+    [49; 27; 5; 0; 49; 9; 1; 1; 1; 255; 128; 3; 128; 2; 3; 160; 5; 48; 3; 2; 1; 1; 160; 5; 48; 3; 2; 1; 1].
+Proof. c04_case_tac. Qed.
+
+(* the CER and BER statements, on the SEQUENCE with DEFAULT components; CER on a SET OF [0] IMPLICIT INTEGER *)
+Example cer_abs_function_nonvacuous :
+  let v1 := VRec [Some (VInt 1); Some (VInt 5); Some (VOcts [104; 105])] in
+  let v2 := VRec [Some (VInt 1)] in
+  c04_ty cer_prim c04_seq = true /\ c04_ty no_ty c04_seq = true /\ c04_val c04_seq v1 = true /\ c04_val c04_seq v2 = true /\
+  aval_eqb (abs c04_seq v1) (abs c04_seq v2) = true /\
+  encode CER false 0 c04_seq v1 = Ok [48; 128; 2; 1; 1; 0; 0] /\ encode CER false 0 c04_seq v2 = Ok [48; 128; 2; 1; 1; 0; 0] /\
+  encode BER true 0 c04_seq v1 = Ok [48; 3; 2; 1; 1] /\ encode BER true 0 c04_seq v2 = Ok [48; 3; 2; 1; 1].
+Proof. vm_compute. repeat split; reflexivity. Qed.
+
+Example cer_abs_function_setof_nonvacuous :
+  let T := TSetOf (TImp c04_ctx0 TInt) in
+  let v1 := VList [VInt 3; VInt 1; VInt 2] in
+  let v2 := VList [VInt 1; VInt 2; VInt 3] in
+  c04_ty cer_prim T = true /\ c04_val T v1 = true /\ c04_val T v2 = true /\ aval_eqb (abs T v1) (abs T v2) = true /\
+  encode CER false 0 T v1 = Ok [49; 128; 128; 1; 1; 128; 1; 2; 128; 1; 3; 0; 0] /\
+  encode CER false 0 T v2 = Ok [49; 128; 128; 1; 1; 128; 1; 2; 128; 1; 3; 0; 0].
+Proof. vm_compute. repeat split; reflexivity. Qed.
+
+(* ---------- why the domain is what it is: witnesses on the model ---------- *)
+
+(* [abs] identifies the base-10 REALs (10, 10, 0) and (1, 10, 1); the encoder writes the mantissa and exponent
+   it is given.  The former is not a state of univ.Real with an integer mantissa (the constructor normalises),
+   hence [real_ok]. *)
+Example real_dec_unnormalised_witness :
+  aval_eqb (abs TReal (VReal (RDec 10 0))) (abs TReal (VReal (RDec 1 1))) = true /\
+  encode DER true 0 TReal (VReal (RDec 10 0)) = Ok [9; 6; 3; 49; 48; 69; 43; 48] /\
+  encode DER true 0 TReal (VReal (RDec 1 1)) = Ok [9; 4; 3; 49; 69; 49].
+Proof. vm_compute. repeat split; reflexivity. Qed.
+
+(* an untagged ANY member of a SET OF that is not a TLV: the zero-padded comparison cannot order [1] and [1; 0],
+   the stable sort keeps the order the members came in, hence [any_tlv] *)
+Example setof_any_witness :
+  let T := TSetOf TAny in
+  aval_eqb (abs T (VList [VAny [1]; VAny [1; 0]])) (abs T (VList [VAny [1; 0]; VAny [1]])) = true /\
+  encode DER true 0 T (VList [VAny [1]; VAny [1; 0]]) = Ok [49; 3; 1; 1; 0] /\
+  encode DER true 0 T (VList [VAny [1; 0]; VAny [1]]) = Ok [49; 3; 1; 0; 1].
+Proof. vm_compute. repeat split; reflexivity. Qed.
+
+(* CER, SET OF SEQUENCE { ANY }: arbitrary octets in an ANY deep inside a member defeat the padded comparison of
+   the indefinite-length members (DER tells the same two members apart) *)
+Example cer_setof_any_witness :
+  let T := TSetOf (TSeq [(Req, TAny)]) in
+  let v1 := VList [VRec [Some (VAny [])]; VRec [Some (VAny [0; 0])]] in
+  let v2 := VList [VRec [Some (VAny [0; 0])]; VRec [Some (VAny [])]] in
+  c04_val T v1 = true /\ c04_val T v2 = true /\ aval_eqb (abs T v1) (abs T v2) = true /\
+  encode CER false 0 T v1 = Ok [49; 128; 48; 128; 0; 0; 48; 128; 0; 0; 0; 0; 0; 0] /\
+  encode CER false 0 T v2 = Ok [49; 128; 48; 128; 0; 0; 0; 0; 48; 128; 0; 0; 0; 0] /\
+  encode DER true 0 T v1 = Ok [49; 6; 48; 0; 48; 2; 0; 0] /\ encode DER true 0 T v2 = Ok [49; 6; 48; 0; 48; 2; 0; 0].
+Proof. vm_compute. repeat split; reflexivity. Qed.
+
+(* the converse direction fails (finding F24): a present but empty OPTIONAL constructed component is dropped,
+   so two values with different abstract contents share their DER octets *)
+Example f24_converse_witness :
+  let T := TSeq [(Opt, TSeqOf TInt)] in
+  aval_eqb (abs T (VRec [Some (VList [])])) (abs T (VRec [None])) = false /\
+  encode DER true 0 T (VRec [Some (VList [])]) = Ok [48; 0] /\ encode DER true 0 T (VRec [None]) = Ok [48; 0].
+Proof. vm_compute. repeat split; reflexivity. Qed.
